@@ -110,6 +110,7 @@ class Run:
         self.zombie_alive = False
         self.expired_in_a_row = 0
         self.executors = []
+        self.retired = set()     # tickets of an EARLIER call made inside this run (they stay gated, nothing releases them early)
 
     def ev(self, *a):
         with self.lock:
@@ -305,7 +306,7 @@ def node_enter(i, args=None):
     if t is None and threading.get_ident() == R.main:
         # an inline (main-thread) node: some pooled thread nodes may finish while the scheduler is busy here
         live = [x for x in R.tickets if x.kind == "thread" and x.handle is not None and not x.gate.is_set()
-                and x.node is not None]
+                and x.node is not None and x.id not in R.retired]
         early = R.script.early(live)
         if early:
             R.ev("early", tuple(sorted(x.id for x in early)))
